@@ -397,8 +397,18 @@ class CallMixin(object):
                 return self.call_method(st, fn.py[1], fn.py[2], args, kw, node, star)
             if kind == 'superbound':
                 return self.call_super(st, fn.py, args, kw, node, star)
+            if kind == 'rematch_group':
+                m = fn.py[1]
+                if len(args) != 1 or not z3.is_int_value(args[0].z):
+                    self.oos('match.group with a non-literal index', node)
+                gi = args[0].z.as_long()
+                if gi not in m['groups']:
+                    self.oos('match.group(%d) is not modelled' % gi, node)
+                return self.ok(st, m['groups'][gi])
             if kind == 'extern':
                 q = fn.py[1]
+                if q in ('re:match', 're:fullmatch'):
+                    return self.ext_re_match(st, q.split(':')[1], args, kw, node)
                 if q in self.spec.contracts:
                     return self.call_contract(st, self.spec.contracts[q], args, kw, node)
                 self.oos('call of external function %s without a trusted contract' % q, node)
@@ -692,6 +702,40 @@ class CallMixin(object):
                     outs += self.ok(self.write_field(s2, lid, '$vlist', 'seq', newc), ret)
             return outs
         return self.list_method(st, l, name, args, kw, node)
+
+    def ext_re_match(self, st, fname, args, kw, node):
+        from . import regex
+        pat, s = args[0], args[1]
+        if not (pat.ty == STR and z3.is_string_value(pat.z)):
+            self.oos('re.%s with a non-literal pattern' % fname, node)
+        mode = regex.MODELS.get((fname, pat.z.as_string()))
+        if mode is None:
+            self.oos('re.%s(%r): this pattern has no T-STDLIB model' % (fname, pat.z.as_string()), node)
+        self.used_contracts.add('re:%s/%s' % (fname, pat.z.as_string()))
+
+        def k(s2, sv):
+            z = sv.z
+            first, facts = regex.sig_facts(z)
+            s2 = s2.assume(*facts)
+            if mode == 'prefix':
+                cond = first
+            elif mode == 'full':
+                cond = z3.And(first, regex.FULL(z))
+            else:
+                nl = z3.StringVal('\n')
+                cond = z3.And(first, z3.Or(regex.FULL(z), z3.And(
+                    z3.Not(regex.HAS3(z)), regex.REST(z) == nl),
+                    z3.And(regex.HAS3(z), regex.REST2(z) == nl)))
+            t, f = self.branch(s2, cond)
+            out = []
+            if t is not None:
+                groups = {1: SV(STR, regex.G1(z)),
+                          3: SV(VAL, z3.If(regex.HAS3(z), Val.VStr(regex.G3(z)), Val.VNone))}
+                out += self.ok(t, mk_py(('rematch', {'groups': groups})))
+            if f is not None:
+                out += self.ok(f, mk_none())
+            return out
+        return self.with_kinds(st, s, ['str'], node, k)
 
     # ------------------------------------------------------------------ builtins
     def call_builtin(self, st, name, args, kw, node):
